@@ -4,6 +4,7 @@ PROPS["C02"] = {
     "level": "model_checking",
     "harnesses": [
         {"name": "c02_seq", "covers": ["setsafe.refused", "setsafe.accepted"]},
+        {"name": "c02_race2", "covers": ["race.one-winner"]},
     ],
     "bounds": {"quick": "1 key; pre-state absent or resident (New/Ok/Updated) with any version in [1, i32::MAX); one command of {set-safe v (any i32 >= -1), set, increment n}; value strings <= 4 printable ASCII chars",
                "thorough": "same"},
